@@ -21,6 +21,7 @@ func (p *goContPool) get() *GoCont {
 	p.next--
 	c := p.conts[p.next]
 	p.conts[p.next] = nil
+	verifPoolGoCont(c)
 	return c
 }
 
